@@ -87,6 +87,24 @@ func toFloat64Generic(v any) (float64, bool) {
 		return float64(n), true
 	case float64:
 		return n, true
+	// every other Go number a caller may put into a row (acc_* ignored them and had_changed /
+	// changed_col saw int8(3) and int(3) as different values)
+	case int8:
+		return float64(n), true
+	case int16:
+		return float64(n), true
+	case uint:
+		return float64(n), true
+	case uint8:
+		return float64(n), true
+	case uint16:
+		return float64(n), true
+	case uint32:
+		return float64(n), true
+	case uint64:
+		return float64(n), true
+	case float32:
+		return float64(n), true
 	}
 	return 0, false
 }
